@@ -138,6 +138,11 @@ def check(ctx):
     t = ctx.drive(drv, script, "gstuff_enc")
     bad = ctx.judge("GstuffTrace", [t])
     for b in bad: b["driver"] = "drv_gstuff"
+    # the second build configuration (size-optimised, plain char unsigned) on a third of the executions
+    ta = ctx.drive(gc.build(ctx, alt=True), core.subset_executions(script, ctx.seed, 1.0 if ctx.thorough else 0.34, always=("worst",)), "gstuff_enc_alt")
+    bada = ctx.judge("GstuffTrace", [ta])
+    for b in bada: b["driver"] = "drv_gstuff@alt"
+    bad += bada
     ctx.report(bad)
     ctx.assumptions += [
         "the receiver used for the round trip is the real one with a buffer of n+8 bytes; its per-byte behaviour on arbitrary streams is C05",
